@@ -15,10 +15,11 @@ EXTENDS Naturals, Sequences, FiniteSets, TLC, Json
 
 Inner == {"none", "badsig", "unsigned", "expired", "notyet", "audience", "solicit", "recipient", "forged_after_signing"}
 Keys  == {"matchFirst", "matchSecond", "none"}
+\* companion: the response also carries a plain, valid (and validly signed) assertion next to the encrypted one
 Scn == [producer : {"idp"}, signResp : BOOLEAN, signAssert : BOOLEAN, advice : BOOLEAN, selfContained : BOOLEAN,
-        pefim : BOOLEAN, keys : Keys, inner : {"none"}, wantAssert : BOOLEAN]
+        pefim : BOOLEAN, keys : Keys, inner : {"none"}, wantAssert : BOOLEAN, companion : {FALSE}]
        \cup [producer : {"attacker"}, signResp : {FALSE}, signAssert : {TRUE}, advice : {FALSE}, selfContained : {TRUE},
-             pefim : {FALSE}, keys : Keys, inner : Inner, wantAssert : BOOLEAN]
+             pefim : {FALSE}, keys : Keys, inner : Inner, wantAssert : BOOLEAN, companion : BOOLEAN]
 
 VARIABLES scn, pc, plain, sigChecked, verdict
 vars == <<scn, pc, plain, sigChecked, verdict>>
@@ -37,7 +38,7 @@ Round1 == /\ pc = "round1"
 \* second round: only entered while something is still encrypted; what shows up only now is
 \* checked now (repaired design)
 Round2 == /\ pc = "round2"
-          /\ Done("noid")                        \* nothing opens the cipher text: no identity
+          /\ Done(IF scn.companion THEN "accept" ELSE "noid")     \* nothing opens the cipher text: no identity from it
 \* _assertion(assertion, verified = TRUE) and the checks every assertion gets
 Checks == /\ pc = "checks"
           /\ IF scn.wantAssert /\ ~HasSig THEN Done("reject")
@@ -46,14 +47,15 @@ Checks == /\ pc = "checks"
 
 \* ---- contract
 Decryptable == scn.keys # "none"
-MustNoIdentity == ~Decryptable
-                  \/ scn.inner \in {"badsig", "forged_after_signing", "expired", "notyet", "audience", "solicit"}
-                  \/ (scn.inner = "unsigned" /\ scn.wantAssert)
-                  \/ (~scn.signAssert /\ scn.wantAssert)
+\* with a valid plain companion an undecryptable assertion leaves the companion's identity: open
+InnerBad == \/ scn.inner \in {"badsig", "forged_after_signing", "expired", "notyet", "audience", "solicit"}
+            \/ (scn.inner = "unsigned" /\ scn.wantAssert)
+            \/ (~scn.signAssert /\ scn.wantAssert)
+MustNoIdentity == (~Decryptable /\ ~scn.companion) \/ (Decryptable /\ InnerBad)
 \* what the same assertion would get in plain (the relational clause: same checks)
 PlainWouldReject == scn.inner \in {"badsig", "forged_after_signing", "expired", "notyet", "audience", "solicit"}
                     \/ ((scn.inner = "unsigned" \/ ~scn.signAssert) /\ scn.wantAssert)
-MustAccept == Decryptable /\ scn.inner = "none" /\ (scn.wantAssert => scn.signAssert)
+MustAccept == Decryptable /\ scn.inner = "none" /\ (scn.wantAssert => scn.signAssert) /\ ~scn.companion
               /\ (scn.producer = "idp" => scn.selfContained \/ scn.pefim)      \* see DESIGN: non-self-contained output
 Confidential == scn.producer = "idp"
 Emit == /\ pc = "done" /\ pc' = "emitted" /\ UNCHANGED <<scn, plain, sigChecked, verdict>>
@@ -63,7 +65,7 @@ Next == Round1 \/ Round2 \/ Checks \/ Emit
 Spec == Init /\ [][Next]_vars
 PipelineMeetsContract == pc \in {"done", "emitted"} =>
     /\ (MustNoIdentity => verdict # "accept") /\ (MustAccept => verdict = "accept")
-SameChecks == pc \in {"done", "emitted"} => (PlainWouldReject => verdict # "accept")
+SameChecks == pc \in {"done", "emitted"} /\ Decryptable => (PlainWouldReject => verdict # "accept")
 \* an identity is only ever taken from content that was decrypted and, if signed, verified
-NoIdentityFromCipherText == verdict = "accept" => plain /\ (HasSig => sigChecked)
+NoIdentityFromCipherText == verdict = "accept" /\ ~scn.companion => plain /\ (HasSig => sigChecked)
 =============================================================================
